@@ -994,4 +994,147 @@ example : rawTabletCheck (i64Max - 1) i64Max [some (7, 3), some (8, 0)] = .ok (i
     rawTabletCheck 1 5 [some (1, -1)] = .error .shardnum ∧ rawTabletCheck 1 5 [some (1, 0), none] = .error .deserialization :=
   ⟨rfl, rfl, rfl, rfl, rfl, rfl⟩
 
+/-! ### `TabletsInfo`: every table keeps the invariant -/
+
+def InfoInv (inf : Info) : Prop := ∀ e ∈ inf.tables, Inv e.2.tablets
+
+inductive InfoOp where
+  | insert (ks table : String) (t : Tablet)
+  | maint (keyspaces : List (String × Bool × List String)) (removed : List Nat) (nodes recreated : List (Nat × Node))
+
+def infoStep (inf : Info) : InfoOp → Info
+  | .insert ks tb t => (inf.addTablet (ks, tb) t).1
+  | .maint kss rm ns rc => inf.maintenance kss rm ns rc
+
+private theorem mem_alSet {κ β : Type} [DecidableEq κ] (k : κ) (v : β) (m : List (κ × β)) :
+    ∀ e ∈ alSet k v m, e = (k, v) ∨ e ∈ m := by
+  induction m with
+  | nil => intro e he; simp [alSet] at he; exact Or.inl he
+  | cons x m ih =>
+    obtain ⟨k', v'⟩ := x
+    intro e he
+    simp only [alSet] at he
+    split at he
+    · rcases List.mem_cons.mp he with rfl | h
+      · exact Or.inl rfl
+      · exact Or.inr (List.mem_cons_of_mem _ h)
+    · rcases List.mem_cons.mp he with rfl | h
+      · exact Or.inr List.mem_cons_self
+      · rcases ih e h with r | r
+        · exact Or.inl r
+        · exact Or.inr (List.mem_cons_of_mem _ r)
+
+private theorem alGet_mem {κ β : Type} [DecidableEq κ] (k : κ) (v : β) (m : List (κ × β)) (h : alGet k m = some v) :
+    (k, v) ∈ m := by
+  induction m with
+  | nil => simp [alGet] at h
+  | cons x m ih =>
+    obtain ⟨k', v'⟩ := x
+    simp only [alGet] at h
+    split at h
+    · rename_i hk
+      cases h; subst hk; exact List.mem_cons_self
+    · exact List.mem_cons_of_mem _ (ih h)
+
+private theorem inv_empty : Inv Table.empty.tablets := by
+  refine ⟨?_, List.Pairwise.nil⟩
+  intro t ht
+  simp [Table.empty] at ht
+
+theorem info_inv_add (inf : Info) (h : InfoInv inf) (ks tb : String) (t : Tablet) (ht : t.first ≤ t.last) :
+    InfoInv (inf.addTablet (ks, tb) t).1 ∧ (inf.addTablet (ks, tb) t).2 = true := by
+  have hcur : Inv ((alGet (ks, tb) inf.tables).getD Table.empty).tablets := by
+    cases hg : alGet (ks, tb) inf.tables with
+    | none => exact inv_empty
+    | some c => exact h _ (alGet_mem _ _ _ hg)
+  have heq := addTabletList_eq _ t hcur ht
+  constructor
+  · intro e he
+    simp only [Info.addTablet, Table.addTablet, heq] at he
+    rcases mem_alSet _ _ _ e he with rfl | hm
+    · exact inv_addTablet _ t hcur ht _ heq
+    · exact h e hm
+  · simp only [Info.addTablet, Table.addTablet, heq]
+
+theorem info_inv_maint (inf : Info) (h : InfoInv inf) (kss : List (String × Bool × List String)) (rm : List Nat)
+    (ns rc : List (Nat × Node)) : InfoInv (inf.maintenance kss rm ns rc) := by
+  unfold Info.maintenance
+  simp only []
+  -- dropping tables keeps the others as they are
+  have h1 : ∀ e ∈ inf.tables.filter (fun e =>
+      match alGet e.1.1 kss with
+      | none => false
+      | some (tabletBased, tables) => tabletBased && tables.contains e.1.2), Inv e.2.tablets :=
+    fun e he => h e (List.mem_filter.mp he).1
+  generalize inf.tables.filter _ = kept at h1
+  -- added entries are empty
+  have inner : ∀ (ksn : String) (tbs : List String) (acc : List ((String × String) × Table)),
+      (∀ e ∈ acc, Inv e.2.tablets) →
+      ∀ e ∈ tbs.foldl (fun acc tb =>
+        match alGet (ksn, tb) acc with
+        | some _ => acc
+        | none => acc ++ [((ksn, tb), Table.empty)]) acc, Inv e.2.tablets := by
+    intro ksn tbs
+    induction tbs with
+    | nil => intro acc ha; exact ha
+    | cons tb tbs ih =>
+      intro acc ha
+      simp only [List.foldl_cons]
+      apply ih
+      split
+      · exact ha
+      · intro e he
+        rcases List.mem_append.mp he with hm | hm
+        · exact ha e hm
+        · simp only [List.mem_singleton] at hm
+          subst hm; exact inv_empty
+  have outer : ∀ (kl : List (String × Bool × List String)) (acc : List ((String × String) × Table)),
+      (∀ e ∈ acc, Inv e.2.tablets) →
+      ∀ e ∈ kl.foldl (fun acc ks =>
+        if ks.2.1 then ks.2.2.foldl (fun acc tb =>
+          match alGet (ks.1, tb) acc with
+          | some _ => acc
+          | none => acc ++ [((ks.1, tb), Table.empty)]) acc
+        else acc) acc, Inv e.2.tablets := by
+    intro kl
+    induction kl with
+    | nil => intro acc ha; exact ha
+    | cons ks kl ih =>
+      intro acc ha
+      simp only [List.foldl_cons]
+      apply ih
+      split
+      · exact inner ks.1 ks.2.2 acc ha
+      · exact ha
+  have h2 := outer kss kept h1
+  generalize kss.foldl _ kept = withEmpty at h2
+  split
+  · intro e he
+    obtain ⟨x, hx, rfl⟩ := List.mem_map.mp he
+    exact inv_maintenance x.2 (h2 x hx) rm ns rc
+  · exact h2
+
+/-- **Every table of the `TabletsInfo` satisfies the invariant after every sequence** of learnt tablets and
+maintenance steps (keyspaces dropped, re-created, switched away from tablets, …), and no insert panics. -/
+theorem info_inv_run (ops : List InfoOp) (hv : ∀ ks tb t, InfoOp.insert ks tb t ∈ ops → t.first ≤ t.last) :
+    InfoInv (ops.foldl infoStep Info.empty) := by
+  have key : ∀ (rops : List InfoOp), (∀ ks tb t, InfoOp.insert ks tb t ∈ rops → t.first ≤ t.last) →
+      InfoInv (rops.reverse.foldl infoStep Info.empty) := by
+    intro rops
+    induction rops with
+    | nil => intro _ e he; cases he
+    | cons op rops ih =>
+      intro hv
+      have ih' := ih (fun ks tb t hm => hv ks tb t (List.mem_cons_of_mem _ hm))
+      simp only [List.reverse_cons, List.foldl_append, List.foldl_cons, List.foldl_nil]
+      cases op with
+      | insert ks tb t => exact (info_inv_add _ ih' ks tb t (hv ks tb t List.mem_cons_self)).1
+      | maint kss rm ns rc => exact info_inv_maint _ ih' kss rm ns rc
+  have := key ops.reverse (fun ks tb t hm => hv ks tb t (List.mem_reverse.mp hm))
+  rwa [List.reverse_reverse] at this
+
+example : ((Info.empty.addTablet ("ks", "t") (tb 1 5)).1.maintenance [("ks", true, ["t", "u"])] [] [] []).tables
+    = [(("ks", "t"), ⟨[tb 1 5], false⟩), (("ks", "u"), Table.empty)] ∧
+    ((Info.empty.addTablet ("ks", "t") (tb 1 5)).1.maintenance [("ks", false, ["t"])] [] [] []).tables = [] := by decide
+
 end ScyllaVerif.Props.C15
